@@ -102,6 +102,7 @@ impl<const K: usize> VArc<K> {
                 e.drop_panics.store(false, SeqCst);
                 e.id.store(NEXT_ID.fetch_add(1, SeqCst), SeqCst);
                 emit(format!("varc alloc {} val={}", ident(e), val));
+                crate::race::init(index_of(e as *const _ as usize).unwrap() - 1);
                 return VArc { e };
             }
         }
@@ -119,6 +120,8 @@ impl<const K: usize> VArc<K> {
             violation(format!("uaf: deref of dead {}", name_of(self.e as *const _ as usize)));
         } else if self.e.ty.load(SeqCst) != K {
             violation(format!("type-confusion: deref of {} through handle of type {}", ident(self.e), K));
+        } else {
+            crate::race::read(index_of(self.e as *const _ as usize).unwrap() - 1, &ident(self.e));
         }
         self.e.val.load(SeqCst)
     }
@@ -154,6 +157,7 @@ impl<const K: usize> Drop for VArc<K> {
             return;
         }
         let old = self.e.cnt.fetch_sub(1, SeqCst);
+        crate::race::dec(index_of(addr).unwrap() - 1, old == 1, &ident(self.e));
         if old == 0 {
             violation(format!("double-free: count underflow on {}", name_of(addr)));
         }
